@@ -54,3 +54,21 @@ Print Assumptions C18_later_manager_starts_above_ns.
 Theorem C18_counter_increment_is_one : GenTimeCounter.tc_increment = 1%N.
 Proof. exact counter_increment_is_one. Qed.
 Print Assumptions C18_counter_increment_is_one.
+
+From DT Require GenHandlers HandlerEq.
+
+(* how an incoming request is handled -- validation before anything is created (acceptRequest), the checks
+   and revalidation of a restart request (restartRequest), the dispatch by kind (OnRequestReceived), the
+   validator lookup of a restart (validateRestart) and the events that record a validation outcome -- as
+   written in Node.v, runs for every interpreter state like the programs regenerated from
+   impl/receiving_requests.go and impl/events.go on every run: same result, same "an error occurred", same
+   state and outputs *)
+Theorem C18_request_handlers_are_the_sources : forall k m c vr s,
+  HandlerEq.same_val (Node.run (Node.bind (Node.exec Node.ISelf) (fun self => GenHandlers.gen_acceptRequest self k m)) s) (Node.run (Node.accept_request k m) s) /\
+  HandlerEq.same_val3 (Node.run (Node.bind (Node.exec Node.ISelf) (fun self => GenHandlers.gen_restartRequest self k m)) s) (Node.run (Node.restart_request k m) s) /\
+  HandlerEq.same_run2 (Node.run (GenHandlers.gen_OnRequestReceived (Node.n_self (Node.s_node s)) k m) s) (Node.run (Node.on_request_received k m) s) /\
+  HandlerEq.same_val (Node.run (GenHandlers.gen_validateRestart c) s) (Node.run (Node.validate_restart c) s) /\
+  HandlerEq.same_run (Node.run (GenHandlers.gen_recordRejectedValidationEvents k vr) s) (Node.run (Node.record_rejected k vr) s) /\
+  HandlerEq.same_run (Node.run (GenHandlers.gen_recordAcceptedValidationEvents c vr) s) (Node.run (Node.record_accepted c vr) s).
+Proof. exact HandlerEq.request_handlers_are_source. Qed.
+Print Assumptions C18_request_handlers_are_the_sources.
